@@ -564,7 +564,7 @@ def nested_fn_items(text):
         elif c == '}':
             depth -= 1
         elif depth == 0:
-            mm = re.compile(r'((?:#\[[^\]]*\]\s*)*)(?:pub\s+)?fn\s+([A-Za-z_][A-Za-z0-9_]*)').match(m, k)
+            mm = re.compile(r'((?:#\[[^\]]*\]\s*)*)(?:pub\s+)?(?:const\s+)?(?:unsafe\s+)?fn\s+([A-Za-z_][A-Za-z0-9_]*)').match(m, k)
             if mm and (k == bo + 1 or not (m[k - 1].isalnum() or m[k - 1] == '_')):
                 # the item runs to the close of its own body
                 rel = body_open(text[mm.start():close])
